@@ -230,10 +230,9 @@ impl StringDecoder for Unreal2StringDecoder {
 
         // If UCS2 the first byte is the masked length of the string
         let result = if ucs2 {
-            let string_data = &data[start .. start + length];
-            if string_data.len() != length {
-                return Err(PacketBad.context("Not enough data in buffer to read string"));
-            }
+            let string_data = data
+                .get(start .. start + length)
+                .ok_or_else(|| PacketBad.context("Not enough data in buffer to read string"))?;
 
             // When node decodes UCS2 it uses the UFT16LE encoding.
             // https://github.com/nodejs/node/blob/2aaa21f9f684484edb54be30589c4af0b923cdef/lib/buffer.js#L637-L645
